@@ -155,7 +155,7 @@ def run(ctx):
         for vn in ("keep", "keepnomatch"):
             k = d[vn][1]
             base = plain if vn == "keep" else d["nomatch"][1]
-            nread = len(k["ret"]) + len(k["unmatched"])
+            nread = k["records_read"]       # counted at the reader, not inferred from the two outputs
             read = [runloop.idx_of(r) for r in rows[:nread]]
             merged = sorted([x for x in k["ret"] + k["unmatched"] if x >= 0])
             if k["ret"] != base["ret"] or obs_key(k) != obs_key(base):
